@@ -589,6 +589,55 @@ def run(ctx):
             validate_filters = None
         if hasattr(streams, 'opt_cases'):
             streams.s_opt(ctx, streams.opt_cases(rng, ctx.n(300, 5000)))
+    if ctx.model.available:
+        sample = [gen.mixed(rng) for _ in range(ctx.n(500, 8000))] + [gen.g2(rng, 30) for _ in range(ctx.n(300, 5000))] + \
+                 [grammar.render_script([g.stmt()], grammar.Layout(rng, comments=rng.choice([0, 0.2])), final_semi=False) for _ in range(ctx.n(300, 5000))]
+        domain_reindentsafe(ctx, [t for t in sample if len(t) < 600])
+
+
+def domain_reindentsafe(ctx, texts):
+    """DOMAIN(reindentsafe): the token-level hypothesis `ReindentSafe` (⇒ `DelimSafe`) of `strip_whitespace_total_of_delimSafe`, `aligned_total_of_delimSafe`
+    and `reindent_total_of_reindentSafe` is evaluated by the Lean driver on every statement; where it holds, each of the three REAL filters applied
+    to the freshly grouped statement (exactly the tree the theorems speak about) must raise nothing but RecursionError.  Anything else is a broken tie."""
+    from sqlparse import filters as F
+    outs = ctx.model.ask(['reindentsafe ' + hexs(t) for t in texts])
+    safe = outside = 0
+    for t, o in zip(texts, outs):
+        ctx.stream('DOMAIN(reindentsafe)', inputs=1, lines=1)
+        if not o.startswith('ok'):
+            continue
+        parts = o.split()[1:]
+        try:
+            n = len(sqlparse.parse(t))
+        except Exception:
+            continue
+        if n != len(parts):
+            continue
+        for i, pp in enumerate(parts):
+            rs, dom = pp.split(':')
+            if rs != '1':
+                outside += 1
+                continue
+            safe += 1
+            if dom != '1':
+                ctx.mismatch('DOMAIN(reindentsafe)', t, 'model: ReindentSafe statement outside FilterSafe.reindent', 'inside (theorem reindent_domain_of_reindentSafe)')
+                break
+            bad = None
+            for name, mk in (('StripWhitespaceFilter', lambda: F.StripWhitespaceFilter()), ('ReindentFilter', lambda: F.ReindentFilter()),
+                             ('AlignedIndentFilter', lambda: F.AlignedIndentFilter())):
+                st = sqlparse.parse(t)[i]
+                try:
+                    mk().process(st)
+                except RecursionError:
+                    pass
+                except Exception as e:
+                    bad = '%s raised %s' % (name, type(e).__name__)
+                    break
+            if bad:
+                ctx.mismatch('DOMAIN(reindentsafe)', t, bad, 'nothing but RecursionError on a ReindentSafe statement (theorems *_total_of_delimSafe / reindent_total_of_reindentSafe)')
+                break
+    ctx.dist['reindentsafe_statements_in_domain'] = safe
+    ctx.dist['reindentsafe_statements_outside'] = outside
 
 
 def keyof(f):
